@@ -33,7 +33,7 @@ def load_known():
 
 def replay_obligation(prop, unit, ob):
     """Write the replay file and try to reproduce natively.  Returns (path, reproduced: bool|None, detail)."""
-    d = os.path.join(VERIF, "replay", prop)
+    d = os.path.join(os.environ.get("PYVC_REPLAY_DIR") or os.path.join(VERIF, "replay"), prop)
     os.makedirs(d, exist_ok=True)
     h = hashlib.sha1(ob["name"].encode()).hexdigest()[:12]
     path = os.path.join(d, f"{h}.json")
@@ -60,7 +60,11 @@ def replay_obligation(prop, unit, ob):
             if out:
                 try:
                     res = json.loads(out[-1])
-                    reproduced = bool(res.get("reproduced"))
+                    reproduced = bool(res.get("reproduced")) and _same_clause(ob, res)
+                    if res.get("reproduced") and not reproduced:
+                        res["notes"] = res.get("notes", []) + ["the native run fails, but not in the clause this obligation is about (an "
+                                                               "artefact of the replay harness or another obligation's failure): not counted"]
+                        res["reproduced"] = False
                     detail = res
                 except json.JSONDecodeError:
                     detail = {"error": (p.stdout + p.stderr)[-600:]}
@@ -68,11 +72,134 @@ def replay_obligation(prop, unit, ob):
                 detail = {"error": p.stderr[-600:]}
         except Exception as e:  # noqa: BLE001
             detail = {"error": repr(e)}
+    if reproduced is False and isinstance(detail, dict) and "error" not in detail and isinstance(rec.get("model"), dict):
+        # The solver's model did not reproduce natively (typical cause: a value of an uninterpreted function - utf-8 encoding, a hash,
+        # a callee's verdict - that the real code computes differently).  Try single-leaf neighbours of that model on the REAL code;
+        # a neighbour only counts when it satisfies the contract's requires natively and a clause of the contract fails natively.
+        tried = 0
+        for desc, variant in _neighbours(rec["model"], _scalar_inputs(unit), ob):
+            tried += 1
+            vrec = dict(rec, model=variant)
+            vpath = path[:-5] + ".try.json"
+            try:
+                with open(vpath, "w") as f:
+                    json.dump(vrec, f, default=str)
+                p = subprocess.run(["/venv/bin/python", "-m", "pyvc.replay", vpath], capture_output=True, text=True, timeout=60,
+                                   cwd=VERIF, env={**os.environ, "PYTHONPATH": f"{VERIF}:{driver.REPO}"})
+                res = json.loads(p.stdout.strip().splitlines()[-1])
+            except Exception:  # noqa: BLE001
+                continue
+            if res.get("reproduced") and _same_clause(ob, res):
+                rec["solver_model"] = rec["model"]
+                rec["model"] = variant
+                rec["model_origin"] = f"neighbour of the solver's model ({desc}); the solver's own model did not reproduce natively"
+                res["notes"] = res.get("notes", []) + [rec["model_origin"]]
+                reproduced, detail = True, res
+                break
+        try:
+            os.remove(path[:-5] + ".try.json")
+        except OSError:
+            pass
+        if not reproduced and isinstance(detail, dict):
+            detail["neighbours_tried"] = tried
     rec["replay"] = detail
     rec["reproduced"] = reproduced
     with open(path, "w") as f:
         json.dump(rec, f, indent=1, default=str)
     return path, reproduced, detail
+
+
+NEIGHBOUR_BUDGET = 40
+_STR_ALTS = ["\u00e9", "", "\u20acuro\U0001d11e", "ab"]
+_INT_ALTS = [0, 1, -1, 2, 255, 256, 65535, 65536, 2 ** 31, 2 ** 32]
+_BYTES_ALTS = ["", "00", "ff", "0001", "ffffffff", "00" * 20, "ab" * 32]
+
+
+def _scalar_inputs(unit):
+    """names of the contract variables that are plain universally quantified scalars (INT/BOOL/BYTES/STR) - the only places a neighbour
+    may differ from the solver's model.  Empty (no neighbour search) for contracts that rest on assumptions the native run cannot
+    check: a json model, uninterpreted predicates/functions in the clauses, stubs."""
+    from . import api
+    for c in api.CONTRACTS:
+        if c["name"] == unit.get("contract") and c["fn"] == unit.get("fn"):
+            text = " ".join(str(x) for x in list(c["requires"]) + list(c["ensures"]) + list(c["ensures_raise"])
+                            + [g for gs in c["on_effect"].values() for g in gs] + [repr(d) for d in c["vars"].values()])
+            if c.get("json_model") or c.get("stubs") or "uf_" in text:
+                return set()
+            return {v for v, d in c["vars"].items() if d in ("int", "bool", "bytes", "str")}
+    return set()
+
+
+def _same_clause(ob, res):
+    """the native failure is the failure the refuted obligation is about (same ensures text / same escaped exception / same guard)"""
+    info = ob.get("info") or {}
+    failed = res.get("failed") or []
+    if "ensures" in info:
+        return any(f.startswith("post") and info["ensures"] in f for f in failed)
+    if "ensures_raise" in info:
+        return any(f.startswith("post-raise") and info["ensures_raise"] in f for f in failed)
+    if "exception" in info:
+        return any(f.startswith("noraise: " + str(info["exception"]).split(".")[-1]) for f in failed)
+    if "guard" in info:
+        return any(f.startswith("guard@") and str(info["guard"]) in f for f in failed)
+    return False
+
+
+def _neighbours(model, allowed, ob=None):
+    """(description, variant) pairs: the model with ONE scalar input replaced (strings first: they are where uninterpreted functions
+    bite), at most NEIGHBOUR_BUDGET variants."""
+    import copy as _copy
+    leaves = []
+    model_view = {k: v for k, v in model.items() if k in allowed}
+    if not model_view:
+        return
+
+    def walk(node, path):
+        if isinstance(node, dict):
+            if "__bytes__" in node and isinstance(node["__bytes__"], str):
+                leaves.append((path, "bytes"))
+                return
+            for k, v in node.items():
+                if k in ("__obj__", "__class__", "default_in_dom") or (not path and k in ("result", "raised")):
+                    continue
+                walk(v, path + [k])
+        elif isinstance(node, list):
+            for i, v in enumerate(node):
+                walk(v, path + [i])
+        elif isinstance(node, bool):
+            leaves.append((path, "bool"))
+        elif isinstance(node, int):
+            leaves.append((path, "int"))
+        elif isinstance(node, str) and node != "<deep>":
+            leaves.append((path, "str"))
+    walk(model_view, [])
+    order = {"str": 0, "bool": 1, "bytes": 2, "int": 3}
+    leaves.sort(key=lambda pk: (order[pk[1]], len(pk[0])))
+    n = 0
+    rounds = max(len(_STR_ALTS), len(_INT_ALTS), len(_BYTES_ALTS))
+    for r in range(rounds):
+        for path, kind in leaves:
+            alts = {"str": _STR_ALTS, "int": _INT_ALTS, "bytes": _BYTES_ALTS, "bool": [None]}[kind]
+            if r >= len(alts):
+                continue
+            v = _copy.deepcopy(model)
+            node = v
+            for k in path[:-1]:
+                node = node[k]
+            cur = node[path[-1]]
+            if kind == "bool":
+                new = not cur
+            elif kind == "bytes":
+                new = {"__bytes__": alts[r]}
+            else:
+                new = alts[r]
+            if new == cur:
+                continue
+            node[path[-1]] = new
+            n += 1
+            if n > NEIGHBOUR_BUDGET:
+                return
+            yield f"{'.'.join(map(str, path))} := {new!r}"[:120], v
 
 
 def _repo_head():
